@@ -451,9 +451,13 @@ def main(chk):
     cfg = {"spec": "Spec", "constants": {"MaxPool": "3", "MaxHeap": "2", "MaxSteps": str(steps_ex), "Narrow": "FALSE"}}
     res = chk.model_check("D42", cfg, name="C07_D42_hist", dump=True)
     hists = [st["hist"] for st in core.load_dump(res) if len(st["hist"]) == steps_ex]
+    chk.count("histories_of_the_machine", len(hists))
+    if len(hists) > 25000:
+        # TLC has checked the action properties on all of them; a seeded sample is stepped on real objects
+        hists = chk.rng.sample(hists, 25000)
     chk.count("exhaustive_histories", len(hists))
     # (B2) longer behaviours from the simulator
-    nsim, depth = (250, 12) if quick else (4000, 14)
+    nsim, depth = (250, 12) if quick else (1500, 14)
     c = dict(consts, MaxPool="6", MaxHeap="3", MaxSteps=str(depth), Narrow="FALSE")
     sim = simulated_behaviours(chk, nsim, depth + 1, c)
     c = dict(consts, MaxPool="5", MaxHeap="3", MaxSteps=str(depth), Narrow="TRUE")
